@@ -378,7 +378,7 @@ func (e *env) msgSweep() {
 	urls := reg.ListImplementations(sdk.MsgInterfaceProtoName)
 	sort.Strings(urls)
 	e.out.Stats.Extra["registered_msg_types"] = len(urls)
-	nRand := hx.N(12, 150)
+	nRand := hx.N(40, 400)
 	fxTypes := map[string]bool{}
 	for _, u := range urls {
 		m, err := reg.Resolve(u)
@@ -415,7 +415,7 @@ func (e *env) msgSweep() {
 	// templates of the fx-core types, valid then mutated on the wire
 	covered := map[string]bool{}
 	tpls := e.templates()
-	budget := hx.N(250, 100000) // mutations per template (quick tier samples)
+	budget := hx.N(1500, 100000) // mutations per template (quick tier samples)
 	for _, t := range tpls {
 		u := sdk.MsgTypeURL(t)
 		covered[u] = true
@@ -610,7 +610,7 @@ func randABIValue(t abi.Type, rng *rand.Rand) any {
 
 func (e *env) precompileSweep() {
 	signer := e.s.AddTestSigner(1000)
-	n := hx.N(14, 400)
+	n := hx.N(70, 700)
 	type pc struct {
 		name string
 		addr common.Address
@@ -716,7 +716,7 @@ func (e *env) precompileSweep() {
 func (e *env) decoderSweep() {
 	parts := []string{"", "ibc", "px", "fx", "0x", "transfer", "channel-0", "channel-18446744073709551615", "channel-18446744073709551616", "channel-", "channel-01",
 		"channel-1a", "channel-+1", "channel--1", "channel-000000000000000000001", "channel-channel-1", " ", "\t", "0", "1", "chain", "gravity", "module", "evm", "eth", "erc20", "cosmos", "é", " ", " ", "Channel-1", "transfer ", "x/y"}
-	n := hx.N(1500, 40000)
+	n := hx.N(5000, 60000)
 	e.out.Reset("decoders")
 	emitTarget := func(s string) {
 		var t fxtypes.FxTarget
@@ -750,6 +750,16 @@ func (e *env) decoderSweep() {
 			ps = append(ps, hx.Pick(e.rng, parts))
 		}
 		s := strings.Join(ps, "/")
+		if e.rng.Intn(3) == 0 {
+			// mostly-valid IBC targets, boundary channel numbers, then occasionally damaged
+			num := hx.Pick(e.rng, []string{"0", "7", "007", "18446744073709551615", "18446744073709551616", "99999999999999999999", "100000000000000000000", "", "1a"})
+			pfx := hx.Pick(e.rng, []string{"px", "fx", "0x", "cosmos", " ", "\t ", "é", "a b"})
+			s = hx.Pick(e.rng, []string{"ibc/" + num + "/" + pfx, pfx + "/transfer/channel-" + num, "ibc/" + pfx + "/transfer/channel-" + num, pfx + "/Transfer/channel-" + num, "ibc/" + num + "/" + pfx + "/x"})
+			if e.rng.Intn(5) == 0 && len(s) > 0 {
+				k := e.rng.Intn(len(s))
+				s = s[:k] + hx.Pick(e.rng, []string{"/", "-", "0", " "}) + s[k:]
+			}
+		}
 		if e.rng.Intn(4) == 0 {
 			s = "chain/" + s
 		}
@@ -1079,7 +1089,7 @@ func (e *env) feeSweep() {
 	e.s.Commit()
 	// (a) the checker directly
 	e.out.Reset("fee-direct")
-	n := hx.N(4000, 120000)
+	n := hx.N(15000, 200000)
 	for i := 0; i < n; i++ {
 		c := e.genFeeCase(signer.AccAddress(), true)
 		tx, _, err := e.buildTx(c, signer, false, e.s.Ctx)
@@ -1114,7 +1124,7 @@ func (e *env) feeSweep() {
 	}
 	// (b) the full ante handler on signed transactions, CheckTx mode
 	e.out.Reset("fee-ante")
-	n2 := hx.N(700, 12000)
+	n2 := hx.N(2500, 25000)
 	for i := 0; i < n2; i++ {
 		c := e.genFeeCase(signer.AccAddress(), false)
 		ctx, _ := e.s.Ctx.CacheContext()
